@@ -191,7 +191,71 @@ def _get_part(mod_name, tier, part_name):
     raise HarnessError(f"no part {part_name} in {mod_name}")
 
 
+# ---------------------------------------------------------------------------
+# environment dimension shared by all checks: every fourth case (chosen by the hash of the case, so a replay gets the
+# same) is evaluated with debug logging switched on for the package's loggers, the records being formatted into a sink.
+# What a property promises does not depend on the logging level of the process.
+
+_DEBUG_LOGS = [False]
+
+
+def debug_logs_active():
+    return _DEBUG_LOGS[0]
+
+
+class _Sink(__import__("logging").Handler):
+    def emit(self, record):
+        try:
+            self.format(record)
+        except Exception:   # noqa  (a log statement that cannot be formatted is reported by logging itself, not here)
+            pass
+
+
+class _PackageLogging:
+    def __init__(self, debug):
+        self.debug = debug
+
+    def __enter__(self):
+        import logging
+        _DEBUG_LOGS[0] = self.debug
+        if not self.debug:
+            return self
+        self.lg = logging.getLogger("ak")
+        self.saved = (self.lg.level, list(self.lg.handlers), self.lg.propagate)
+        self.children = {n: l.level for n, l in logging.Logger.manager.loggerDict.items()
+                         if n.startswith("ak.") and isinstance(l, logging.Logger)}
+        for n in self.children:
+            logging.getLogger(n).setLevel(logging.NOTSET)
+        self.lg.handlers[:] = [_Sink()]
+        self.lg.setLevel(logging.DEBUG)
+        self.lg.propagate = False
+        return self
+
+    def __exit__(self, *a):
+        import logging
+        _DEBUG_LOGS[0] = False
+        if self.debug:
+            self.lg.setLevel(self.saved[0])
+            self.lg.handlers[:] = self.saved[1]
+            self.lg.propagate = self.saved[2]
+            for n, lv in self.children.items():
+                logging.getLogger(n).setLevel(lv)
+        return False
+
+
+def wants_debug_logs(case):
+    return h64(case) % 4 == 0
+
+
 def safe_evaluate(part, case):
+    with _PackageLogging(wants_debug_logs(case)) as env:
+        out = _safe_evaluate(part, case)
+    if env.debug and isinstance(out, Outcome):
+        out.classes = sorted(set(out.classes) | {"package_debug_logging_on"})
+    return out
+
+
+def _safe_evaluate(part, case):
     """evaluate(case); an exception that escapes from the package under test through code of the check that did not
     expect one (innermost frame inside the tree under test) is a finding, not a harness error: the package raised
     on an input of the property's domain. Exceptions raised by the check's own code stay harness errors."""
